@@ -1,6 +1,7 @@
 package main
 
 import (
+	"go/token"
 	"path/filepath"
 	"runtime"
 	"strings"
@@ -33,7 +34,7 @@ func checkC14(c *Ctx) {
 	r.Rule("C14.guard", "guarded-by: accesses to the container's storage field need its RWMutex (W for writes)", 19)
 	r.Rule("C14.section", "whole-effect: all accesses of a method lie in one critical section, or later write sections re-read first (double check)", 19)
 	r.Rule("C14.buffered-count", "Buffered: AppendBack counts one element in, RemoveFront one out and advances the head by exactly one; Len/Front read end / the head", 4)
-	r.Rule("C14.buffered-capacity", "Buffered: growth/shrink decisions use the live ring length, or a capacity field that is updated wherever the ring is linked AND unlinked", 2)
+	r.Rule("C14.buffered-capacity", "Buffered: growth/shrink decisions use the live ring length, or a capacity field that is updated wherever the ring is linked AND unlinked; buffer size >= 1", 3)
 	r.Rule("C14.ring-iso", "ring/ring.go ≡ $GOROOT/src/container/ring/ring.go modulo generics", 10)
 
 	specs := c14Specs(c.P.ModPath)
@@ -142,6 +143,27 @@ func c14Buffered(c *Ctx) {
 	})
 	r.Check(okLen, "C14.buffered-count", "ring.Buffered.Len", p.Pos(lenFn.Pos()), "Len returns end", "Len no longer returns the element count")
 
+	// the growth increment is at least 1: New(0) is nil, so a full ring would not grow and
+	// the next append wraps around over the front element
+	nb := p.Func("ring", "NewBuffered")
+	okClamp, nSt := true, 0
+	allInstrs(nb, func(in ssa.Instruction) {
+		st, ok := in.(*ssa.Store)
+		if !ok {
+			return
+		}
+		fa, ok := st.Addr.(*ssa.FieldAddr)
+		if !ok || fieldIDOfAddr(fa) != (FieldID{bt, "bsize"}) {
+			return
+		}
+		nSt++
+		if c14LowerBound(st.Val, 0) < 1 {
+			okClamp = false
+		}
+	})
+	r.Check(okClamp && nSt > 0, "C14.buffered-capacity", "ring.NewBuffered bsize >= 1", p.Pos(nb.Pos()), "buffer size defaults to at least 1",
+		"NewBuffered can store a buffer size below 1: AppendBack on a full ring then links New(0) (nil), the ring does not grow, and the next element is written over the front element while Len keeps counting")
+
 	// capacity decisions
 	for _, spec := range []struct {
 		fn            *ssa.Function
@@ -210,4 +232,68 @@ func c14StoredNearCall(fn *ssa.Function, f FieldID, callee string) bool {
 		}
 	})
 	return found
+}
+
+// c14LowerBound: a lower bound of integer value v from constants, max(),
+// and phis whose parameter edges are guarded by a dominating `x < 1`-false /
+// `x >= 1` fact. Unknown = -1<<31.
+func c14LowerBound(v ssa.Value, depth int) int64 {
+	const unknown = -1 << 31
+	if depth > 6 {
+		return unknown
+	}
+	switch x := v.(type) {
+	case *ssa.Const:
+		if x.Value != nil {
+			return x.Int64()
+		}
+	case *ssa.Call:
+		if builtinName(x) == "max" {
+			best := int64(unknown)
+			for _, a := range x.Call.Args {
+				if b := c14LowerBound(a, depth+1); b > best {
+					best = b
+				}
+			}
+			return best
+		}
+	case *ssa.Phi:
+		lo := int64(1 << 31)
+		for i, ed := range x.Edges {
+			b := c14LowerBound(ed, depth+1)
+			if b == unknown {
+				// a non-constant edge: look for a fact on the incoming edge's predecessor
+				pred := x.Block().Preds[i]
+				for _, dc := range append(domConds(pred), c14EdgeCond(pred, x.Block())...) {
+					if cmp, ok := decodeCond(dc.If.Cond, dc.Branch); ok && cmp.X == ed {
+						if k, ok := cmp.Y.(*ssa.Const); ok && k.Value != nil {
+							switch cmp.Op {
+							case token.GEQ:
+								b = k.Int64()
+							case token.GTR:
+								b = k.Int64() + 1
+							}
+						}
+					}
+				}
+			}
+			if b < lo {
+				lo = b
+			}
+		}
+		return lo
+	}
+	return unknown
+}
+
+// c14EdgeCond: the condition of the edge pred->succ if pred ends in an If.
+func c14EdgeCond(pred, succ *ssa.BasicBlock) []DomCond {
+	if len(pred.Instrs) == 0 {
+		return nil
+	}
+	ifi, ok := pred.Instrs[len(pred.Instrs)-1].(*ssa.If)
+	if !ok || pred.Succs[0] == pred.Succs[1] {
+		return nil
+	}
+	return []DomCond{{ifi, pred.Succs[0] == succ}}
 }
